@@ -5,6 +5,7 @@ use vstd::prelude::*;
 use vstd::string::*;
 use vstd::std_specs::hash::*;
 use vstd::imap::*;
+use vstd::multiset::*;
 use vstd::iset::*;
 use std::collections::HashMap;
 
